@@ -7,7 +7,7 @@ from fractions import Fraction
 
 from sa.report import Cx
 from sa.walker import WalkOptions
-from sa.terms import (Sym, Attr, Sub, App, Num, Const, AIn, f_not, implies)
+from sa.terms import (Sym, Attr, Sub, App, Num, Const, AIn, ATruthy, f_not, implies)
 from .common import DEC, CORE, strip_versions
 
 PID = 'C18'
@@ -348,6 +348,55 @@ def run(cx: Cx):
                              where=cx.where(ofn, stale[0].last.line))
             else:
                 cx.ok('R-FRESH', f"{ci.name}.open_file hands out a description parsed in the call", where=cx.where(ofn), function=ofn.qualname)
+    # what a class's decode() receives is the listed 'params' plus the decoded model (and the agent's index): a default written into
+    # them ("priority may also be given at entry level") replaces the default of the system's own class - a collector listed without
+    # a priority runs before the systems it observes
+    dfn = cx.fn(DEC + 'Decoder.decode')
+    n_ps = 0
+    extra = None
+    for p_ in cx.walker.paths(dfn, WalkOptions(unroll=1, callee_raises=False)):
+        for e in p_.events:
+            if e.kind != 'store':
+                continue
+            tg = strip_versions(e.data.get('target'))
+            if not (isinstance(tg, Sub) and tg.index == Const('params')):
+                continue
+            n_ps += 1
+            if e.data.get('store') == 'setitem' and e.data.get('key') in (Const('model'), Const('agent_index')):
+                continue
+            extra = extra or e
+    if extra is not None:
+        cx.violation('R-FWD', dfn.qualname, 'listed-params-passed-as-listed',
+                     f"decode() performs {extra.data.get('store')} (key {extra.data.get('key')!r}) on {extra.data.get('target')!r}: the "
+                     f"parameters a listed class is created from are those of the description, with only the decoded model (and the "
+                     f"agent index) added - the declared scheduling, and the class's own defaults for what is not declared, are changed",
+                     where=cx.where(dfn, extra.line))
+    else:
+        cx.ok('R-FWD', f"decode() adds only 'model' / 'agent_index' to the listed params ({n_ps} store(s) examined)", where=cx.where(dfn),
+              function=dfn.qualname)
+    # every description that could be opened is decoded: the only refusal decode() makes itself is "the file did not open" - a
+    # validation of its own (duplicate ids, ...) refuses legal descriptions (two systems that leave `id` to their class defaults)
+    n_rz = 0
+    refused = None
+    from sa.terms import AIs as _AIs
+    for p_ in cx.walker.paths(dfn, WalkOptions(unroll=1, callee_raises=False)):
+        if p_.end != 'raise' or not p_.last.data.get('direct'):
+            continue
+        n_rz += 1
+        opened = [e for e in p_.events if e.kind == 'assign' and isinstance(e.data.get('value'), App) and
+                  e.data['value'].fn.endswith('.open_file')]
+        dterm = opened[0].data['value'] if opened else None
+        nodata = dterm is not None and (implies(p_.cond, _AIs(dterm, Const(None))) is None or implies(p_.cond, f_not(ATruthy(dterm))) is None)
+        if not nodata:
+            refused = refused or p_
+    if refused is not None:
+        cx.violation('R-GUARD', dfn.qualname, 'every-opened-description-is-decoded',
+                     f"decode() raises {refused.last.data.get('exc')} under [{refused.cond!r}], which is not \"the file could not be "
+                     f"opened\": a description the documented lifecycle can process is refused", where=cx.where(dfn, refused.last.line),
+                     path=refused.lines())
+    else:
+        cx.ok('R-GUARD', f"decode() refuses a description only when it could not be opened ({n_rz} raise path(s))", where=cx.where(dfn),
+              function=dfn.qualname)
     from .common import check_no_stateful_memo
     check_no_stateful_memo(cx)
     # the lifecycle is verified on Decoder.decode: the bundled decoders specialise open_file only (an override of decode that changes
